@@ -27,10 +27,6 @@ func checkC01(ctx *Ctx) *Result {
 	r.rule("R1.5", "Insert always adds (or is subsumed by a wildcard entry); wildcard flag = result of the `*` test", 6)
 	r.rule("R1.6", "strip/guard agreement: exactly the tested bytes are dropped from the key", 2)
 	r.rule("R1.7", "Contains: exact entries iff host exhausted, wildcard entries while bytes remain, descend only on full suffix match", 5)
-	r.rule("R1.8", "Insert's restructuring keeps the key decomposition: every edge is labelled by the last byte of the (non-empty) suffix of the node it leads to; a split replaces the child by a node holding the common suffix, under which the old child (all four slices, remaining prefix) and the new key's remaining prefix hang", 6)
-	r.rule("R1.9", "splitAtCommonSuffix removes the same number of trailing bytes from both arguments and returns that many trailing bytes of the shorter one, comparing byte by byte from the end and stopping at the first difference", 4)
-	insertRestructuring(ctx, r)
-	commonSuffixRule(ctx, r)
 	// ---- R1.1 -----------------------------------------------------------
 	rt, ok := requestTableGuards(ctx, r)
 	if ok {
@@ -135,6 +131,12 @@ func treeRules(ctx *Ctx, r *Result) {
 			}
 		}
 	}
+	r.rule("R1.8", "Insert's restructuring keeps the key decomposition: every edge is labelled by the last byte of the (non-empty) suffix of the node it leads to; a split replaces the child by a node holding the common suffix, under which the old child (all four slices, remaining prefix) and the new key's remaining prefix hang", 6)
+	r.rule("R1.9", "splitAtCommonSuffix removes the same number of trailing bytes from both arguments and returns that many trailing bytes of the shorter one, comparing byte by byte from the end and stopping at the first difference", 4)
+	insertRestructuring(ctx, r)
+	commonSuffixRule(ctx, r)
+	r.rule("R1.12", "an origin pattern is written only by its parser: the fields of Pattern and HostPattern are stored only on ParsePattern's call tree, so what is inserted into the tree (and examined by the prohibitions) is what was parsed", 1)
+	patternOwnership(ctx, r, "R1.12")
 	r.rule("R1.3", "port-code encoding agreement between add / contains / elems; sentinel and shift disjoint from real ports", 6)
 	r.rule("R1.4", "parallel slices are updated pairwise, same constructor, same index; never reordered or resized alone", 4)
 	r.rule("R1.5", "Insert always adds (or is subsumed by a wildcard entry); wildcard flag = result of the `*` test", 6)
@@ -423,6 +425,12 @@ func treeRules(ctx *Ctx, r *Result) {
 				child := "iaddr(" + nd + ".children, " + edge + "#0)"
 				split := "call:origins.splitAtCommonSuffix(" + h + ", " + child + ".suf)"
 				full := "bin:==(len:builtin.len(" + split + "#2), len:builtin.len(" + child + ".suf))"
+				// the child's whole suffix matched: the common suffix is as long as
+				// the child's, or (the same, by R1.9) nothing of the child's is left
+				fullV := pa.Val(full)
+				if fullV == 0 {
+					fullV = pa.Val("bin:==(" + split + "#1, \"\")")
+				}
 				good, detail := true, ""
 				switch {
 				case empty == 0:
@@ -439,12 +447,12 @@ func treeRules(ctx *Ctx, r *Result) {
 					if pa.Val(wild) != -1 {
 						good, detail = false, "`not allowed` is returned without having consulted the wildcard-subdomain entries of the node"
 					}
-					if !(pa.Val(edge+"#1") == -1 || (pa.Val(edge+"#1") == 1 && pa.Val(full) == -1)) {
+					if !(pa.Val(edge+"#1") == -1 || (pa.Val(edge+"#1") == 1 && fullV == -1)) {
 						good, detail = false, "`not allowed` is returned although the edge exists and the child's suffix matches"
 					}
 				case pa.End != "return":
 					// descend
-					if pa.Val(wild) != -1 || pa.Val(edge+"#1") != 1 || pa.Val(full) != 1 {
+					if pa.Val(wild) != -1 || pa.Val(edge+"#1") != 1 || fullV != 1 {
 						good, detail = false, "the walk descends without (wildcard miss ∧ edge for the host's last byte ∧ the child's whole suffix matching)"
 					}
 					if pa.Next[hostPhi] == nil || pa.Next[hostPhi].Key() != split+"#0" {
@@ -877,9 +885,9 @@ func insertRestructuring(ctx *Ctx, r *Result) {
 					continue
 				}
 				target, label, node := e.Args[0].Key(), e.Args[1].Key(), e.Args[2]
-			if len(e.Deref) > 2 && e.Deref[2] != nil {
-				node = e.Deref[2] // the child is handed over by pointer to a local
-			}
+				if len(e.Deref) > 2 && e.Deref[2] != nil {
+					node = e.Deref[2] // the child is handed over by pointer to a local
+				}
 				suf := fieldOf(node, "suf").Key()
 				get := func(f string) *Term { return fieldOf(node, f) }
 				isZero := func(f string) bool { t := get(f); return t.Op == "zero" || t.IsConst("nil") }
@@ -1360,4 +1368,55 @@ func insertHelperRule(ctx *Ctx, r *Result) {
 		}
 	}
 	r.check(bad == "", "R1.11", "origins.insert", p.Pos(fn.Pos()), bad, len(paths))
+}
+
+// patternOwnership: who may write the fields of origins.Pattern and
+// origins.HostPattern — the pattern parser and the helpers only it calls.
+func patternOwnership(ctx *Ctx, r *Result, rule string) {
+	p := ctx.P
+	pp := p.Func(pkgOrigins, "ParsePattern")
+	if pp == nil {
+		r.undecided(rule, "ParsePattern", "anchor not found")
+		return
+	}
+	we := ctx.WE()
+	allowed := map[string]bool{funcName(pp): true}
+	for changed := true; changed; {
+		changed = false
+		for _, f := range we.Reach(pp) {
+			name := funcName(f)
+			if allowed[name] || len(we.callers[f]) == 0 {
+				continue
+			}
+			all := true
+			for _, cs := range we.callers[f] {
+				if !allowed[funcName(cs.Caller)] {
+					all = false
+				}
+			}
+			if all {
+				allowed[name], changed = true, true
+			}
+		}
+	}
+	n, ok := 0, true
+	for _, typ := range []string{"Pattern", "HostPattern"} {
+		w := p.fieldWriters(pkgOrigins, typ)
+		for _, f := range sortedKeys(w) {
+			for _, fn := range w[f] {
+				n++
+				if !allowed[fn] {
+					ok = false
+					r.fail(rule, "origins."+typ+"."+f, "", "field written outside the pattern parser, by "+fn+": the pattern that is inserted or examined is no longer the one that was parsed")
+				}
+			}
+		}
+	}
+	if n < 4 {
+		r.undecided(rule, "pattern writers", fmt.Sprintf("only %d (field, writer) pairs found for Pattern/HostPattern", n))
+		return
+	}
+	if ok {
+		r.ok(rule, "Pattern and HostPattern fields written only on ParsePattern's call tree", n, fmt.Sprint(sortedKeys(allowed)))
+	}
 }
